@@ -185,6 +185,41 @@ def run(c):
     if not ok:
         c.violation("random notification history rejected by HealthRateTrace: %s" % why,
                     {"machine": "rate", "broken": why}, {"trace": rows[:3000]})
+    # 4. the monitor loop's report (service_main.rs), poll by poll through hook H8, with the agent's status file refreshed,
+    #    left unchanged, missing, of another version or unreadable before each poll; same property-level trace spec
+    nl = 40 if not thorough else 400
+    hist = ["m" * 25 + "su" + "mm" + "s" + "m" * 19 + "u" + "m" * 21 + "uu",          # outage first, recovery, blips
+            "s" + "mu" * 30 + "uu",                                                       # unchanged file between failures
+            "su" + "m" * 20 + "u" + "m" + "uu" + "v" * 22 + "s" + "g" + "ss",
+            "v" * 30 + "uu" + "mm" + "u" + "gg" * 12 + "su"]
+    for _ in range(nl):
+        h = ""
+        for _ in range(rnd.randint(2, 9)):
+            ch = rnd.choice("suuummvg")
+            h += ch * rnd.choice([1, 1, 2, 3, 19, 20, 21, rnd.randint(1, 30)])
+        hist.append(h)
+    inp = "\n".join(json.dumps({"kind": "report", "polls": h}) for h in hist) + "\n"
+    p = subprocess.run(["unshare", "-m", "sh", "-c", "mount -t tmpfs tmpfs /var/log && VERIF_VARLOG_IS_PRIVATE=1 exec " +
+                        os.path.join(bindir, "verif-ext")], input=inp, stdout=subprocess.PIPE, stderr=subprocess.PIPE,
+                       text=True, timeout=900)
+    if p.returncode != 0:
+        raise util.ToolError("verif-ext report driver failed rc=%s: %s" % (p.returncode, p.stderr[-2000:]))
+    outs = [json.loads(l) for l in p.stdout.splitlines() if l.strip()]
+    if len(outs) != len(hist):
+        raise util.ToolError("report driver answered %d of %d histories" % (len(outs), len(hist)))
+    rows = []
+    for h, o in zip(hist, outs):
+        rows.append({"e": "reset"})
+        for ok_, out_ in zip(o["ok"], o["out"]):
+            rows.append({"e": "obs", "ok": ok_, "out": name_of.get(out_, str(out_))})
+        c.count("loop:" + h)
+    c.extra["monitor_loop_histories"] = len(hist)
+    c.extra["monitor_loop_polls"] = sum(len(h) for h in hist)
+    ok, why, res = validate_trace(c, "HealthTrace", "HealthTrace.cfg", rows, "c20_h_loop", count=len(hist), timeout=900)
+    if not ok:
+        c.violation("the monitor loop's report breaks C20 (%s): status file histories through "
+                    "report_proxy_agent_aggregate_status" % why, {"machine": "monitor-loop", "broken": why},
+                    {"histories": hist, "trace": rows[:3000]})
     c.rule = ("S->I: every edge of the complete reachable graphs of Health.tla / HealthRate.tla (real constants) is "
               "replayed on the real object, output compared after every step; I->S: seeded random run-length "
               "histories validated by TLC against the property-level trace specs; distinct = distinct graph edges exercised + distinct random histories")
